@@ -80,15 +80,15 @@ def _pickle_roundtrip(o):
 def _scan_codon_locations_deprecated(o):
     with warnings.catch_warnings():
         warnings.simplefilter("ignore")
-        return list(o.scan_codon_locations())
+        return o.scan_codon_locations()
 
 
 def _scan_windows(o, w, s, p):
-    return list(o.scan_windows(w, s, p))
+    return o.scan_windows(w, s, p)
 
 
 def _iter(o):
-    return list(iter(o))
+    return iter(o)
 
 
 def _lt(o, other):
@@ -96,9 +96,9 @@ def _lt(o, other):
 
 
 def _to_gff_str(o, *args, **kwargs):
-    with warnings.catch_warnings():
-        warnings.simplefilter("ignore")
-        return [str(r) for r in o.to_gff(*args, **kwargs)]
+    # lazy on purpose: to_gff() is a generator; invoke() drains it unless the step asks for a cursor
+    for r in o.to_gff(*args, **kwargs):
+        yield str(r)
 
 
 def _export_qualifiers_with_parent(o, pq):
@@ -655,9 +655,10 @@ CHILD_KIND = {
 }
 
 
-def invoke(kind, opname, obj, args):
+def invoke(kind, opname, obj, args, lazy=False):
     """Apply an operation; ``args`` are already resolved to live values.  The result of a generator/iterator is
-    consumed to a list here so that evaluation (and its exceptions) happen inside the step."""
+    consumed to a list here so that evaluation (and its exceptions) happen inside the step - unless ``lazy``: then
+    the iterator itself is returned and the caller (a cursor of the plan interpreter) steps it."""
     op = BY_NAME[kind][opname]
     with warnings.catch_warnings():
         warnings.simplefilter("ignore")
@@ -667,7 +668,7 @@ def invoke(kind, opname, obj, args):
             r = getattr(obj, op.call)(*args)
         else:
             r = op.call(obj, *args)
-        if hasattr(r, "__next__"):
+        if hasattr(r, "__next__") and not lazy:
             r = list(r)
     return r
 
